@@ -211,6 +211,57 @@ theorem tie_src_boltdb_boltCursor_Last : Gen.ScriptsC18.boltdb_boltCursor_Last =
   "}"
 ] := rfl
 
+theorem tie_src_boltdb_NewBoltStore : Gen.ScriptsC18.boltdb_NewBoltStore = [
+  "func NewBoltStore(ctx context.Context, l log.Logger, folder string) (chain.Store, error) {",
+  " select {",
+  " case <-ctx.Done():",
+  "  return nil, ctx.Err()",
+  " default:",
+  " }",
+  " beaconID := path.Base(path.Dir(folder))",
+  " dbPath := path.Join(folder, BoltFileName)",
+  " if shouldUseTrimmedBolt(ctx, l, dbPath) {",
+  "  return newTrimmedStore(ctx, l, folder)",
+  " }",
+  " db, err := bolt.Open(dbPath, BoltStoreOpenPerm, nil)",
+  " if err != nil {",
+  "  return nil, err",
+  " }",
+  " err = db.Update(func(tx *bolt.Tx) error {",
+  "  _, err := tx.CreateBucketIfNotExists(beaconBucket)",
+  "  return err",
+  " })",
+  " return &BoltStore{",
+  "  log: l,",
+  "  db: db,",
+  " }, err",
+  "}"
+] := rfl
+
+theorem tie_src_boltdb_newTrimmedStore : Gen.ScriptsC18.boltdb_newTrimmedStore = [
+  "func newTrimmedStore(ctx context.Context, l log.Logger, folder string) (*trimmedStore, error) {",
+  " select {",
+  " case <-ctx.Done():",
+  "  return nil, ctx.Err()",
+  " default:",
+  " }",
+  " dbPath := path.Join(folder, BoltFileName)",
+  " db, err := bolt.Open(dbPath, BoltStoreOpenPerm, nil)",
+  " if err != nil {",
+  "  return nil, err",
+  " }",
+  " err = db.Update(func(tx *bolt.Tx) error {",
+  "  _, err := tx.CreateBucketIfNotExists(beaconBucket)",
+  "  return err",
+  " })",
+  " return &trimmedStore{",
+  "  log: l,",
+  "  db: db,",
+  "  requiresPrevious: chain.PreviousRequiredFromContext(ctx),",
+  " }, err",
+  "}"
+] := rfl
+
 theorem tie_src_boltdb_trimmedStore_Put : Gen.ScriptsC18.boltdb_trimmedStore_Put = [
   "func (b *trimmedStore) Put(ctx context.Context, beacon *common.Beacon) error {",
   " select {",
@@ -438,6 +489,85 @@ theorem tie_src_boltdb_trimmedBoltCursor_Seek : Gen.ScriptsC18.boltdb_trimmedBol
 theorem tie_src_boltdb_trimmedBoltCursor_Last : Gen.ScriptsC18.boltdb_trimmedBoltCursor_Last = [
   "func (c *trimmedBoltCursor) Last(ctx context.Context) (*common.Beacon, error) {",
   " return c.store.getCursorBeacon(ctx, c.Bucket(), c.Cursor.Last)",
+  "}"
+] := rfl
+
+theorem tie_src_boltdb_shouldUseTrimmedBolt : Gen.ScriptsC18.boltdb_shouldUseTrimmedBolt = [
+  "func shouldUseTrimmedBolt(ctx context.Context, l log.Logger, sourceBeaconPath string) bool {",
+  " if isThisATest(ctx) {",
+  "  return false",
+  " }",
+  " if _, err := os.Stat(sourceBeaconPath); errors.Is(err, os.ErrNotExist) {",
+  "  return true",
+  " }",
+  " existingDB, err := bolt.Open(sourceBeaconPath, BoltStoreOpenPerm, nil)",
+  " if err != nil {",
+  "  return true",
+  " }",
+  " defer func() {",
+  "  if err := existingDB.Close(); err != nil {",
+  "  }",
+  " }()",
+  " err = existingDB.View(func(tx *bolt.Tx) error {",
+  "  bucket := tx.Bucket(beaconBucket)",
+  "  _, value := bucket.Cursor().First()",
+  "  b := common.Beacon{}",
+  "  return json.Unmarshal(value, &b)",
+  " })",
+  " return err != nil",
+  "}"
+] := rfl
+
+theorem tie_src_boltdb_BoltStore_SaveTo : Gen.ScriptsC18.boltdb_BoltStore_SaveTo = [
+  "func (b *BoltStore) SaveTo(ctx context.Context, w io.Writer) error {",
+  " select {",
+  " case <-ctx.Done():",
+  "  return ctx.Err()",
+  " default:",
+  " }",
+  " return b.db.View(func(tx *bolt.Tx) error {",
+  "  _, err := tx.WriteTo(w)",
+  "  return err",
+  " })",
+  "}"
+] := rfl
+
+theorem tie_src_boltdb_BoltStore_Close : Gen.ScriptsC18.boltdb_BoltStore_Close = [
+  "func (b *BoltStore) Close() error {",
+  " err := b.db.Close()",
+  " if err != nil {",
+  " }",
+  " return err",
+  "}"
+] := rfl
+
+theorem tie_src_boltdb_trimmedStore_SaveTo : Gen.ScriptsC18.boltdb_trimmedStore_SaveTo = [
+  "func (b *trimmedStore) SaveTo(ctx context.Context, w io.Writer) error {",
+  " return b.db.View(func(tx *bolt.Tx) error {",
+  "  _, err := tx.WriteTo(w)",
+  "  return err",
+  " })",
+  "}"
+] := rfl
+
+theorem tie_src_boltdb_trimmedStore_Close : Gen.ScriptsC18.boltdb_trimmedStore_Close = [
+  "func (b *trimmedStore) Close() error {",
+  " err := b.db.Close()",
+  " if err != nil {",
+  " }",
+  " return err",
+  "}"
+] := rfl
+
+theorem tie_src_memdb_Store_SaveTo : Gen.ScriptsC18.memdb_Store_SaveTo = [
+  "func (s *Store) SaveTo(ctx context.Context, _ io.Writer) error {",
+  " return fmt.Errorf(\"saveTo not implemented for MemDB Store\")",
+  "}"
+] := rfl
+
+theorem tie_src_memdb_Store_Close : Gen.ScriptsC18.memdb_Store_Close = [
+  "func (s *Store) Close() error {",
+  " return nil",
   "}"
 ] := rfl
 
